@@ -3,7 +3,8 @@
    process-global state, and no other public function does except the listed one; hence, for any semantics
    consistent with the footprints, interleaving other calls cannot change what a seeded screen call returns. *)
 From Coq Require Import String List Bool.
-Require Import AOV.model.Purity AOV.gen.Gen_effects AOV.proofs.C20_proofs.
+Require Import AOV.model.Purity AOV.gen.Gen_effects AOV.proofs.C20_proofs AOV.model.SeededObjs AOV.proofs.C06_objs.
+From Coq Require Import ZArith.
 Import ListNotations.
 Local Open Scope string_scope.
 
@@ -38,3 +39,62 @@ Print Assumptions C06_interleaving_does_not_matter.
 
 Example C06_nonvacuous : existsb (fun e => screen_module e && f_public e) effects_table = true.
 Proof. vm_compute. reflexivity. Qed.
+
+
+(* ---- the generator discipline as a state machine (model/SeededObjs.v): any number of seeded screen objects, the seeded
+   FFT calls and the process-global generator, under arbitrary histories.  The generator (mk, draw), the numbers of draws
+   and the maps from draws to screens are arbitrary; the model is tied to the code by the history correspondence of
+   harness/pC06.py (which outputs are bit-identical, which differ). ---- *)
+Section Objects.
+  Variables G V S P : Type.
+  Variable mk : Z -> G.
+  Variable draw : G -> nat -> G * V.
+  Variables n_init n_row n_ft : P -> nat.
+  Variable init_scr : P -> V -> S.
+  Variable row : P -> S -> V -> S.
+  Variable ft : P -> V -> S.
+  Notation trace := (trace G V S P mk draw n_init n_row n_ft init_scr row ft).
+  Notation run := (run G V S P mk draw n_init n_row n_ft init_scr row ft).
+  Notation ft_trace := (ft_trace G V S P mk draw n_init n_row n_ft init_scr row ft).
+  Notation otrace := (otrace G V S P mk draw n_init n_row init_scr row).
+
+  (* the outputs of an object (initial screen, every row added, every read) are a function of its own history alone:
+     whatever is interleaved -- other objects, seeded FFT calls, changes of and draws from the global generator -- and
+     whatever the rest of the world holds, also across two objects (a, b) with equal own histories *)
+  Theorem C06_object_outputs_depend_on_own_history_only : forall ops1 ops2 w1 w2 a b,
+    lookup G S P a (objs G S P w1) = lookup G S P b (objs G S P w2) -> kinds P a ops1 = kinds P b ops2 ->
+    trace a w1 ops1 = trace b w2 ops2.
+  Proof. exact (interleaving_irrelevant G V S P mk draw n_init n_row n_ft init_scr row ft). Qed.
+
+  Theorem C06_object_trace_is_own_trace : forall ops w id,
+    trace id w ops = otrace (lookup G S P id (objs G S P w)) (kinds P id ops).
+  Proof. exact (own_history G V S P mk draw n_init n_row n_ft init_scr row ft). Qed.
+
+  (* calling make_initial_screen() again restarts from the seed: what follows equals what followed the construction *)
+  Theorem C06_reinitialisation_restarts_from_the_seed : forall x p s ks1 ks2, no_new P ks1 ->
+    otrace x (KNew P p s :: (ks1 ++ KReinit P :: ks2)%list) = (otrace x (KNew P p s :: ks1) ++ otrace None (KNew P p s :: ks2))%list.
+  Proof. exact (reinit_restarts G V S P mk draw n_init n_row init_scr row). Qed.
+
+  (* the process-global generator is moved by global operations only *)
+  Theorem C06_global_generator_is_a_separate_cell : forall ops w w', glob G S P w = glob G S P w' ->
+    glob G S P (fst (run w ops)) = glob G S P (fst (run w' (filter (is_global P) ops))).
+  Proof. exact (global_cell_separate G V S P mk draw n_init n_row n_ft init_scr row ft). Qed.
+
+  (* seeded FFT screens are functions of (parameters, seed): their outputs ignore the world and everything interleaved *)
+  Theorem C06_seeded_fft_calls_are_stateless : forall ops w w', ft_trace w ops = ft_trace w' (filter (is_ft P) ops).
+  Proof. exact (ft_calls_stateless G V S P mk draw n_init n_row n_ft init_scr row ft). Qed.
+End Objects.
+Print Assumptions C06_object_outputs_depend_on_own_history_only.
+Print Assumptions C06_reinitialisation_restarts_from_the_seed.
+Print Assumptions C06_global_generator_is_a_separate_cell.
+
+(* non-vacuity on the symbolic instance: two objects with one seed, interleaved with a third object, FFT calls and global
+   operations, give equal outputs; after Reinit the outputs repeat *)
+Example C06_objects_nonvacuous :
+  let one := fun _ : nat => 1 in
+  let out := s_run one one one [New 0 7 5%Z; GSeed 3%Z; New 1 7 5%Z; AddRow 0; New 2 7 6%Z; GDraw 4; AddRow 1; Ft 9 5%Z; AddRow 2;
+                                AddRow 0; Reinit 0; AddRow 1; AddRow 0; Ft 9 5%Z] in
+  nth 0 out None = nth 2 out None /\ nth 3 out None = nth 6 out None /\ nth 9 out None = nth 11 out None
+  /\ nth 10 out None = nth 0 out None /\ nth 12 out None = nth 3 out None /\ nth 7 out None = nth 13 out None
+  /\ nth 4 out None <> nth 0 out None /\ nth 3 out None <> nth 0 out None.
+Proof. vm_compute. repeat split; try reflexivity; discriminate. Qed.
